@@ -213,6 +213,13 @@ def rule_defaults(col, facts):
                                     out[g].add(st[2][1][1]["v"])
         return out
     base = defaults_in(bs)
+    if not all(len(v) == 1 for v in base.values()):
+        # the defaults may be read in a helper buffer_size_const delegates to (`zero_padding_bound()`)
+        from rules.extra import _bsc_delegates
+        for hn in _bsc_delegates(facts, bs):
+            hb = defaults_in(facts.fn(hn))
+            for g in base:
+                base[g] |= hb[g]
     col.check(R, "buffer_size_const-defaults", all(len(v) == 1 for v in base.values()), "could not read the two defaults from buffer_size_const: %s" % base, bs.loc())
     n = 0
     for f in facts.all_fns():
@@ -235,6 +242,24 @@ def rule_defaults(col, facts):
         col.note("PAIR-defaults: no check_buffer helper - the in-place comparison is decided by MPT-validate")
         return
     calls = [callee_name(c) for _b, c, _a, _d, _t in cb.calls()]
+    if calls != [WF + "options::Options::buffer_size_const"] and WF + "options::Options::buffer_size_const" in calls:
+        # another spelling (`available.checked_sub(required).is_some()`): read the predicate as a decision table with
+        # the bound fixed to K and evaluate it at K - 1, K, K + 1
+        from rules.pathmodel import Model, Shape, Panic
+        class _K:
+            def value(self, args):
+                return 100
+        try:
+            m_ = Model(cb, "usize", {WF + "options::Options::buffer_size_const": _K()})
+            got = [bool(m_.value([n_, 0])) for n_ in (0, 99, 100, 101, 5000)]
+            col.check(R, "check_buffer-compare", got == [False, False, True, True, True], "check_buffer(len) for a bound of 100 is %s at len = 0, 99, 100, 101, 5000 (expected len >= bound)" % got, cb.loc())
+        except (Shape, Panic) as e_:
+            col.assumed("not-applied", "PAIR-defaults:check_buffer", "check_buffer is neither `len >= buffer_size_const(..)` nor a loop-free predicate that can be evaluated (%s)" % e_, cb.loc())
+        wb = [f for f in facts.all_fns() if f.short.endswith("WriteOptions>::buffer_size") and f.crate == "lexical_write_float"]
+        for f in wb:
+            calls2 = [callee_name(c) for _b, c, _a, _d, _t in f.calls()]
+            col.check(R, "WriteOptions::buffer_size(float)", calls2 == [WF + "options::Options::buffer_size_const"], "WriteOptions::buffer_size for floats calls %s" % calls2, f.loc())
+        return
     col.check(R, "check_buffer", calls == [WF + "options::Options::buffer_size_const"], "check_buffer sizes through %s" % calls, cb.loc())
     # len >= size
     ok = False
